@@ -25,6 +25,12 @@ class ObsDomain(EvDomain):
 
     def consult(self, key, st, fr, n):
         v = self.atom(key)
+        if key == 'id_active' and v is True and getattr(self, 'erase_deactivates', False):
+            # the row fixes whether the id is active on entry; once this path has erased it from the active set it is not any more
+            for t_ in st.events:
+                e_ = t_[2] if isinstance(t_, tuple) and len(t_) == 3 and t_[0] == 'ev' else None
+                if e_ is not None and e_.kind == 'call' and (e_.obj == ACT or (e_.obj is None and e_.argobjs and e_.argobjs[0] == ACT)) and e_.name.split('::')[-1] in ('erase', 'clear', 'extract', 'erase_if'):
+                    v = False; break
         if v is not None: self.ev(st, Ev('consult', n, name=key, val=v), fr)
         return v
 
@@ -69,6 +75,9 @@ class ObsDomain(EvDomain):
             subj_side = [x for x in (l, r) if 'm_subject' in repr(x)]
             if this_side and subj_side:
                 v = self.atom('same_subject'); return v if op == '==' else (not v)
+            # handle.m_subject against null: a handle of this subject has a subject
+            null_side = [x for x in (l, r) if (isinstance(x, Lin) and x.is_const() and x.c == 0) or (isinstance(x, int) and not isinstance(x, bool) and x == 0)]
+            if null_side and subj_side and self.atom('same_subject') is True: return op == '!='
         return None
 
     def container_empty(self, X):
@@ -706,6 +715,7 @@ class SubjectAnalysis:
         hfields = None
         for same_subject, id_active in itertools.product([True, False], [True, False]):
             dom = ObsDomain(dict(id_active=id_active, same_subject=same_subject))
+            dom.erase_deactivates = True          # one handle, one id: after this path has erased it, the id is not active any more
             res = run_paths(self.facts, f, dom)
             row = f'(handle.subject==this: {same_subject}, id active: {id_active})'
             valid = same_subject and id_active
